@@ -1,6 +1,7 @@
 import DriverLib.Util
 -- BEGIN-GENERATED-IMPORTS
 import DriverLib.C01
+import DriverLib.C02
 import DriverLib.C04
 import DriverLib.C05
 import DriverLib.C08
@@ -16,6 +17,7 @@ open Lean Drv
 def handlers : List (String → Json → Option R) := [
 -- BEGIN-GENERATED-HANDLERS
   Drv.C01.handle,
+  Drv.C02.handle,
   Drv.C04.handle,
   Drv.C05.handle,
   Drv.C08.handle,
